@@ -3,7 +3,9 @@
 //! objective function that sleeps a pseudo-random 0–200 µs per call (perturbs completion order), on the
 //! original and on a cloned configuration, repeatedly and in a fresh process, and prints a digest of
 //! the final state of every run. Also: `par_experiment` vs. single runs, child generators, seed pairs,
-//! user-supplied generators.
+//! user-supplied generators; direct `Sequential` / `Parallel` evaluator calls (and the `PopulationEvaluator`
+//! component) on prepared populations of hundreds to thousands of individuals under pools of 1..16
+//! threads, compared value by value, and templates with such populations (`big`).
 use std::path::PathBuf;
 use std::sync::atomic::{AtomicU64, Ordering};
 use std::sync::Arc;
@@ -175,6 +177,143 @@ fn with_jtemplate<U: JUser>(name: &str, variant: u32, instance: u32, iters: u32,
             aco::MMASParameters::verif_new([3, 5, 1, 1][v], [1.0, 0.0, 5.0, 0.0][v], [1.0, 5.0, 0.0, 0.0][v], [1.0, 0.5, 2.0, 1.0][v], [0.1, 0.9, 0.5, 1.0][v], [2.0, 5.0, 3.0, 1.0][v], [0.5, 0.1, 1.0, 0.5][v]),
             LessThanN::iterations(iters))),
         other => Err(format!("unknown template {other}")),
+    }
+}
+
+/// Templates with a LARGE population (hundreds to thousands of individuals evaluated per step): the
+/// parameters of grid point 0 with the population / offspring / neighbourhood size replaced by `size`.
+fn with_big_template<U: JUser>(name: &str, size: u32, instance: u32, iters: u32, user: U) -> Result<U::Out, String> {
+    type JS = J<Sphere>;
+    type JO = J<OneMax>;
+    type JT = J<Tsp>;
+    macro_rules! go {
+        ($inner:expr, $cfg:expr) => {{
+            let inner = $inner;
+            let cfg = $cfg.map_err(|e| format!("{e}"))?;
+            Ok(user.use_config(&cfg, inner))
+        }};
+    }
+    match name {
+        "real_ga" => go!(sphere_instance(instance), ga::real_ga::<JS>(
+            ga::RealProblemParameters { population_size: size, tournament_size: 2, pm: 1.0, deviation: 0.1, pc: 0.8 }, LessThanN::iterations(iters))),
+        "binary_ga" => go!(onemax_instance(instance), ga::binary_ga::<JO>(
+            ga::BinaryProblemParameters { population_size: size, tournament_size: 2, rm: 0.1, pc: 0.8, pm: 1.0 }, LessThanN::iterations(iters))),
+        "real_es" => go!(sphere_instance(instance), es::real_mu_plus_lambda_es::<JS, ()>(
+            es::RealProblemParameters { population_size: size / 3 + 1, lambda: size, deviation: 0.1 }, LessThanN::iterations(iters))),
+        "real_de" => go!(sphere_instance(instance), de::real_de::<JS>(
+            de::RealProblemParameters { population_size: size, y: 1, f: 0.5, pc: 0.9 }, LessThanN::iterations(iters))),
+        "real_pso" => go!(sphere_instance(instance), pso::real_pso::<JS>(
+            pso::RealProblemParameters { num_particles: size, start_weight: 0.9, end_weight: 0.4, c_one: 1.7, c_two: 1.7, v_max: 1.0 }, LessThanN::iterations(iters))),
+        "real_bh" => go!(sphere_instance(instance), bh::real_bh::<JS>(
+            bh::RealProblemParameters { num_particles: size }, LessThanN::iterations(iters))),
+        "real_ls" => go!(sphere_instance(instance), ls::real_ls::<JS>(
+            ls::RealProblemParameters { n_neighbors: size, deviation: 0.1 }, LessThanN::iterations(iters))),
+        "permutation_ls" => go!(tsp_instance(instance), ls::permutation_ls::<JT>(
+            ls::PermutationProblemParameters { num_neighbors: size, num_swap: 2 }, LessThanN::iterations(iters))),
+        "real_iwo" => go!(sphere_instance(instance), iwo::real_iwo::<JS>(
+            iwo::RealProblemParameters {
+                initial_population_size: size / 2 + 1, max_population_size: size, min_number_of_seeds: 0, max_number_of_seeds: 3,
+                initial_deviation: 0.5, final_deviation: 0.01, modulation_index: 3,
+            }, LessThanN::iterations(iters))),
+        "ant_system" => go!(tsp_instance(instance), aco::ant_system::<JT>(
+            aco::ASParameters::verif_new(size as usize, 1.0, 1.0, 1.0, 0.1, 1.0), LessThanN::iterations(iters))),
+        other => Err(format!("unknown big template {other}")),
+    }
+}
+const BIG_TEMPLATES: [&str; 10] = ["real_ga", "real_es", "real_pso", "binary_ga", "real_de", "real_bh", "real_ls", "ant_system", "permutation_ls", "real_iwo"];
+
+// ------------------------------------------------------------------------------------------------
+// direct evaluator calls on prepared populations
+
+/// `Σ xᵢ²` on small integer vectors (`MahfModel.Determinism.objF`); records which individual (tag =
+/// first component) entered the objective function, in entry order, and how many workers took part.
+pub struct EvalProbe { spin: u64, log: std::sync::Mutex<Vec<u64>> }
+impl Problem for EvalProbe {
+    type Encoding = Vec<f64>;
+    type Objective = SingleObjective;
+    fn name(&self) -> &str { "eval-probe" }
+}
+impl ObjectiveFunction for EvalProbe {
+    fn objective(&self, s: &Vec<f64>) -> SingleObjective {
+        let tag = s[0] as u64;
+        self.log.lock().unwrap().push(tag);
+        // a pseudo-random short busy wait so that workers interleave and steal
+        let h = Sm::new(self.spin ^ tag.wrapping_mul(0x9E3779B97F4A7C15)).next();
+        for _ in 0..(h % 300) { std::hint::spin_loop(); }
+        SingleObjective::try_from(s.iter().map(|x| x * x).sum::<f64>()).unwrap()
+    }
+}
+/// `MahfModel.Determinism.prepInd`
+fn prep_ind(prep: u64, seed: u64, i: u64) -> mahf::Individual<EvalProbe> {
+    let sol = vec![i as f64, ((seed + 7 * i) % 101) as f64];
+    let f = |s: &Vec<f64>| SingleObjective::try_from(s.iter().map(|x| x * x).sum::<f64>()).unwrap();
+    let stale = SingleObjective::try_from(7.0).unwrap();
+    let obj = match prep {
+        0 => None,
+        1 => Some(stale),
+        2 => if i % 3 == 0 { Some(stale) } else { None },
+        3 => Some(f(&sol)),
+        _ => if i % 2 == 0 { Some(f(&sol)) } else { None },
+    };
+    match obj { None => mahf::Individual::new_unevaluated(sol), Some(o) => mahf::Individual::new(sol, o) }
+}
+fn obj_atom(i: &mahf::Individual<EvalProbe>) -> String {
+    match i.get_objective() {
+        None => "-".into(),
+        Some(o) => { let v = o.value(); if v >= 0.0 && v < 9.0e15 && v.fract() == 0.0 { (v as u64).to_string() } else { fx(v) } }
+    }
+}
+/// One evaluator call → `(res (objs …) (sched …) (extra …))` or `panic`.
+fn eval_once(entry: &str, n: u64, prep: u64, seed: u64, lo: u64, len: u64, pool: Option<&rayon::ThreadPool>) -> String {
+    use mahf::problems::Evaluate;
+    let problem = EvalProbe { spin: seed ^ (pool.map(|p| p.current_num_threads() as u64).unwrap_or(0) << 32), log: Default::default() };
+    let mut pop: Vec<mahf::Individual<EvalProbe>> = (0..n).map(|i| prep_ind(prep, seed, i)).collect();
+    let (lo, hi) = (lo as usize, (lo + len) as usize);
+    let par = pool.is_some();
+    let r = catch(|| -> Option<(Vec<String>, Vec<String>)> {
+        match entry {
+            "direct" => {
+                // `Evaluate::evaluate(problem, state, &mut pop[lo..hi])` on a fresh state
+                let mut state: State<EvalProbe> = State::new();
+                let slice = &mut pop[lo..hi];
+                match pool {
+                    Some(p) => p.install(|| Parallel::<EvalProbe>::new().evaluate(&problem, &mut state, slice)),
+                    None => Sequential::<EvalProbe>::new().evaluate(&problem, &mut state, slice),
+                }
+                Some((pop[lo..hi].iter().map(obj_atom).collect(), vec![]))
+            }
+            "component" => {
+                // the `PopulationEvaluator` component, run by the public `Configuration::run` on a hand-built state
+                // whose stack is [slice (top), three unevaluated individuals (below)]
+                let config = Configuration::<EvalProbe>::builder().evaluate().build();
+                let mut state: State<EvalProbe> = State::new();
+                state.insert(mahf::logging::Log::new());
+                state.insert(mahf::state::common::Populations::<EvalProbe>::new());
+                state.insert(Random::new(seed));
+                if par { state.insert_evaluator(Parallel::<EvalProbe>::new()) } else { state.insert_evaluator(Sequential::<EvalProbe>::new()) }
+                let lower: Vec<mahf::Individual<EvalProbe>> = (0..3).map(|j| mahf::Individual::new_unevaluated(vec![(n + j) as f64, 0.0])).collect();
+                state.populations_mut().push(lower);
+                state.populations_mut().push(pop[lo..hi].to_vec());
+                let ok = match pool {
+                    Some(p) => p.install(|| config.run(&problem, &mut state)).is_ok(),
+                    None => config.run(&problem, &mut state).is_ok(),
+                };
+                if !ok { return None; }
+                let pops = state.populations();
+                let objs = pops.peek(0).iter().map(obj_atom).collect();
+                let below = if pops.len() > 1 { pops.peek(1).iter().filter(|i| i.is_evaluated()).count() } else { 0 };
+                Some((objs, vec![state.get_value::<Evaluations>().to_string(), pops.len().to_string(), below.to_string()]))
+            }
+            other => panic!("unknown evaluate entry {other}"),
+        }
+    });
+    match r {
+        Some(Some((objs, extra))) => {
+            let sched: Vec<String> = problem.log.lock().unwrap().iter().map(|t| t.checked_sub(lo as u64).unwrap_or(999_999_999).to_string()).collect();
+            list(["res".into(), tagged("objs", objs), tagged("sched", sched), tagged("extra", extra)])
+        }
+        Some(None) => "err".into(),
+        None => "panic".into(),
     }
 }
 
@@ -455,7 +594,7 @@ where
 }
 
 fn pools() -> Vec<(usize, rayon::ThreadPool)> {
-    [1usize, 2, 3, 4, 8, 16].iter().map(|&n| (n, rayon::ThreadPoolBuilder::new().num_threads(n).build().expect("pool"))).collect()
+    [1usize, 2, 3, 4, 7, 8, 16].iter().map(|&n| (n, rayon::ThreadPoolBuilder::new().num_threads(n).build().expect("pool"))).collect()
 }
 
 struct Ctx<'a> { pools: &'a [(usize, rayon::ThreadPool)], seed: u64, jseed: u64 }
@@ -751,6 +890,24 @@ fn run_case(input: &Sx, pools: &[(usize, rayon::ThreadPool)]) -> String {
             }
             tagged("digests", ds)
         }
+        "big" => {
+            let name = a[0].atom().unwrap();
+            let (size, inst, iters, seed) = (n(1) as u32, n(2) as u32, n(3) as u32, n(4));
+            let cx = Ctx { pools, seed, jseed: seed ^ 0x4321 };
+            tagged("digests", match with_big_template(name, size, inst, iters, RunAll { cx }) { Ok(d) => d, Err(_) => vec![list(["seq".into(), "ctor-err".into()])] })
+        }
+        "evaluate" => {
+            let entry = a[0].atom().unwrap();
+            let (nn, threads, prep, seed, lo, len) = (n(1), n(2) as usize, n(3), n(4), n(5), n(6));
+            let own;
+            let pool = match pools.iter().find(|(k, _)| *k == threads) {
+                Some((_, p)) => p,
+                None => { own = rayon::ThreadPoolBuilder::new().num_threads(threads).build().expect("pool"); &own }
+            };
+            let sq = eval_once(entry, nn, prep, seed, lo, len, None);
+            let pr = eval_once(entry, nn, prep, seed, lo, len, Some(pool));
+            list(["evaluate".into(), list(["seq".into(), sq]), list(["par".into(), pr])])
+        }
         "gen" => {
             let config = gen_config(&a[..7]);
             let inner = sphere_instance(n(6) as u32);
@@ -870,6 +1027,23 @@ fn run_case(input: &Sx, pools: &[(usize, rayon::ThreadPool)]) -> String {
     }
 }
 
+fn site_of(sx: &Sx) -> String {
+    match sx.head().unwrap() {
+        ("run", a) => format!("run-{}", a[0].atom().unwrap()),
+        ("big", a) => format!("big-{}", a[0].atom().unwrap()),
+        ("evaluate", a) => format!("evaluate-{}", a[0].atom().unwrap()),
+        (h, _) => h.to_string(),
+    }
+}
+
+/// Population sizes at which a size-dependent code path is most likely to switch or to leave a
+/// remainder: around powers of two, primes, round numbers.
+const EVAL_SIZES: [u64; 40] = [
+    255, 256, 257, 258, 263, 300, 383, 384, 385, 500, 511, 512, 513, 521, 640, 769, 1000, 1009, 1023, 1024, 1025, 1031, 1500, 1537,
+    2000, 2047, 2048, 2049, 2053, 2500, 3000, 3001, 3072, 3073, 4000, 4095, 4096, 4097, 4099, 5000,
+];
+const EVAL_THREADS: [u64; 7] = [1, 2, 3, 4, 7, 8, 16];
+
 fn main() {
     if std::env::var("VERIF_LOUD").is_err() { quiet_panics(); }
     let argv: Vec<String> = std::env::args().collect();
@@ -892,13 +1066,13 @@ fn main() {
     let mut out = Out::new();
     if let Some(r) = a.replay {
         let sx = Sx::parse(&r).expect("bad replay input");
-        out.case(sx.head().unwrap().0, &r, &run_case(&sx, &pools));
+        out.case(&site_of(&sx), &r, &run_case(&sx, &pools));
         out.finish();
         return;
     }
     let mut emit = |input: String| {
         let sx = Sx::parse(&input).unwrap();
-        let site = match sx.head().unwrap() { ("run", a) => format!("run-{}", a[0].atom().unwrap()), (h, _) => h.to_string() };
+        let site = site_of(&sx);
         out.case(&site, &input, &run_case(&sx, &pools));
     };
     let mut r = Sm::new(a.seed);
@@ -923,6 +1097,31 @@ fn main() {
     // 2. generated configurations
     for _ in 0..(if a.thorough { 600 } else { 40 }) {
         emit(format!("(gen {} {} {} {} {} {} {} {})", r.range(2, 8), r.range(1, 5), r.below(4), r.below(3), r.below(3), r.below(3), r.below(N_INSTANCES as u64), r.below(1 << 20)));
+    }
+    // 2a. LARGE populations. (i) direct evaluator calls and the PopulationEvaluator component on prepared populations
+    //     of hundreds to thousands of individuals under pools of 1, 2, 3, 4, 7, 8, 16 threads;
+    for &t in EVAL_THREADS.iter() {
+        let mut sizes: Vec<u64> = vec![257, 1000];
+        for _ in 0..(if a.thorough { 30 } else { 5 }) { sizes.push(*r.pick(&EVAL_SIZES)); }
+        for _ in 0..(if a.thorough { 12 } else { 2 }) { sizes.push(r.range(200, if a.thorough { 16000 } else { 6000 })); }
+        sizes.push(r.range(0, 70));
+        for (k, nn) in sizes.into_iter().enumerate() {
+            let prep = if k % 3 == 0 { 0 } else { r.below(5) };
+            let entry = if k % 3 == 1 { "component" } else { "direct" };
+            // every 4th direct call hands the evaluator a sub-slice
+            let (lo, len) = if entry == "direct" && k % 4 == 2 && nn > 2 { let lo = r.below(nn / 2); (lo, r.range((nn - lo) / 2, nn - lo)) } else { (0, nn) };
+            emit(format!("(evaluate {entry} {nn} {t} {prep} {} {lo} {len})", r.below(1 << 20)));
+        }
+    }
+    //     (ii) templates and generated configurations with a large population: all runs of `all_runs`
+    for i in 0..(if a.thorough { 60 } else { 6 }) {
+        let name = BIG_TEMPLATES[(i + a.seed as usize) % BIG_TEMPLATES.len()];
+        // thorough: every 10th case a population of a few thousand
+        let size = if a.thorough && i % 10 == 9 { r.range(2049, 4200) } else if i % 2 == 0 { *r.pick(&EVAL_SIZES[..24]) } else { r.range(257, 1600) };
+        emit(format!("(big {name} {size} {} {} {})", r.below(N_INSTANCES as u64), r.range(1, 2), r.below(1 << 20)));
+    }
+    for _ in 0..(if a.thorough { 40 } else { 3 }) {
+        emit(format!("(gen {} {} {} {} {} {} {} {})", r.range(257, 1300), r.range(1, 2), r.below(4), r.below(3), r.below(3), r.below(3), r.below(N_INSTANCES as u64), r.below(1 << 20)));
     }
     // 2b. one configuration object reused on problems with different domains; clone after use
     for name in TEMPLATES {
